@@ -80,6 +80,19 @@ def cases(rng, tier):
             ops += [("C",), ("O",)]
         ops += [("R",), ("O",)]
         out.append(shardprop.mk_case("compact-many-zones", cfg, ntypes, nctx, ops))
+    # a round whose index replacement fails after the output was written; a third segment arrives; the retry plans a
+    # larger batch for the same output id and must merge it (not commit the directory the failed attempt left behind)
+    for j in range(1 if tier == "quick" else 12):
+        cfg = dict(rng.choice(shardprop.CFGS)); cfg["segments_per_merge"] = 3
+        ntypes, nctx = 1, rng.range(1, 2)
+        cap = cfg["fill_factor"] * cfg["event_per_zone"]
+        ops = []
+        for s_ in range(2):
+            ops += [("S", 0, rng.below(nctx)) for _ in range(cap)]
+        ops += [("O",), ("FAILIDX",), ("C",), ("UNFAILIDX",), ("O",)]
+        ops += [("S", 0, rng.below(nctx)) for _ in range(cap)]
+        ops += [("O",), ("C",), ("O",), ("C",), ("O",)]
+        out.append(shardprop.mk_case("compact-index-fault-retry", cfg, ntypes, nctx, ops))
     # a lone segment climbs one level per round (fan-in 2): after ten rounds its directory name has six digits
     # (100000); the events must survive a restart at every level
     for j in range(1 if tier == "quick" else 6):
